@@ -174,8 +174,12 @@ func (m *MsgReplyNextTx) UnmarshalCBOR(data []byte) error {
 	if _, err := cbor.Decode(data, &tmp); err != nil {
 		return err
 	}
-	if len(tmp) == 0 {
-		return nil
+	// The ReplyNextTx message is [type] or [type, [era, tx]]
+	if len(tmp) < 1 || len(tmp) > 2 {
+		return fmt.Errorf(
+			"ReplyNextTx must have 1 or 2 elements, got %d",
+			len(tmp),
+		)
 	}
 	messageType64, ok := tmp[0].(uint64)
 	if !ok {
@@ -195,9 +199,10 @@ func (m *MsgReplyNextTx) UnmarshalCBOR(data []byte) error {
 				tmp[1],
 			)
 		}
-		if len(txWrapper) < 2 {
-			return errors.New(
-				"transaction wrapper must have at least 2 elements",
+		if len(txWrapper) != 2 {
+			return fmt.Errorf(
+				"transaction wrapper must have exactly 2 elements, got %d",
+				len(txWrapper),
 			)
 		}
 		eraId64, ok := txWrapper[0].(uint64)
